@@ -179,13 +179,22 @@ type Record struct {
 	Params [][]Text `json:"params"`
 	HasSP  bool     `json:"hassp"`
 	OwnSP  bool     `json:"ownsp"`
+	Cache  []int    `json:"cache"` // internal caches that read paths must not write: decodedPort, isIPv4, isIPv6, number of recorded validation errors
+}
+
+func b2i(b bool) int {
+	if b {
+		return 1
+	}
+	return 0
 }
 
 func Snapshot(u *url.Url) Record {
 	s := u.VerifSnapshot()
 	r := Record{Scheme: FromGo(s.Scheme), User: FromGo(s.Username), Pass: FromGo(s.Password),
 		Host: []Text{}, Port: []int{}, Path: []Text{}, Opath: Text{}, Query: []Text{}, Frag: []Text{}, Params: [][]Text{},
-		Opaque: s.Opaque, HasSP: s.HasSearchParams, OwnSP: s.ParamsOwnerIsSelf}
+		Opaque: s.Opaque, HasSP: s.HasSearchParams, OwnSP: s.ParamsOwnerIsSelf,
+		Cache: []int{s.DecodedPort, b2i(s.IsIPv4), b2i(s.IsIPv6), s.NValidationErrors}}
 	if s.HasHost {
 		r.Host = []Text{FromGo(s.Host)}
 	}
